@@ -90,6 +90,15 @@ def history(rng):
             steps.append(("snip", "var fb%d = Fiber.new(|| { print(\"in fiber\"); %s });\nprint(fb%d.call());\n" % (
                 k, r.choice(["throw \"from fiber\";", "return nil.x;", "Fiber.yield(1); throw \"later\";"]), k)))
             failing = r.chance(100)
+            steps.append(("snip", "print(fb%d.has_finished());\ntry { print(fb%d.call()); } catch e { print(type(e)); print(e.context); }\n" % (k, k)))
+        elif c < 73:
+            # a chain of fibers dies with the run: afterwards none of them is running, resumable or "already called"
+            fail = r.choice(["throw \"inner\";", "nil + 1;", "[].pop();"])
+            steps.append(("snip", "var ch%d = [];\nvar outer%d = Fiber.new(|| {\n    var mid = Fiber.new(|| {\n        var inner = Fiber.new(|| { print(\"inner runs\"); %s });\n"
+                                  "        ch%d.push(inner);\n        return inner.call();\n    });\n    ch%d.push(mid);\n    return mid.call();\n});\nch%d.push(outer%d);\nprint(outer%d.call());\n"
+                          % (k, k, fail, k, k, k, k, k)))
+            steps.append(("snip", "for f in ch%d { print(f.has_finished()); try { print(f.call()); } catch e { print(type(e)); print(e.context); } }\n" % k))
+            failing = True
         elif c < 76:
             steps.append(("snip", "try { print(\"t\"); %s } finally { print(\"cleanup\"); }\nprint(\"not reached\");\n" % r.choice(
                 ["throw \"x\";", "nil();", "print(undefined_q);"])))
